@@ -7,7 +7,7 @@ import z3
 
 from .values import *  # noqa: F401,F403
 from .values import (
-    V, VNone, NONE, VBool, VInt, VStr, VOpt, VTuple, VList, VMap, VSet, VRef, VOpaque,
+    V, VNone, NONE, VBool, VInt, VStr, VOpt, VTuple, VList, VMap, VSet, VRef, VOpaque, VStruct,
     Unsupported, STR, INT, BOOL,
 )
 from . import values as vals
@@ -126,6 +126,27 @@ class CallMixin:
         return False
 
     # ------------------------------------------------------------------ objects
+    def dataify(self, v: V) -> V:
+        """Objects entering a symbolic container are stored by value (VStruct)."""
+        if isinstance(v, VTuple):
+            return VTuple([self.dataify(x) for x in v.items])
+        if isinstance(v, VRef):
+            cell = self.heap()[v.addr]
+            if isinstance(cell.cls, ClassInfo) and cell.val is None and cell.native is None:
+                _, fk = vals.STRUCT_RESOLVER(cell.cls.qualname)
+                fields = {}
+                for f, k in fk.items():
+                    if f in cell.fields:
+                        fv = cell.fields[f]
+                    elif v.addr in self.symbolic_objs:
+                        fv = self.getattr(v, f)
+                    else:
+                        raise Unsupported(f"{cell.cls.qualname}.{f} is declared but was never set")
+                    fields[f] = vals.coerce(self.deref(self.dataify(fv)), vals.fresh(k, "t"))
+                extra = [f for f in cell.fields if f not in fk and not isinstance(cell.fields[f], VRef)]
+                return VStruct(cell.cls, fields)
+        return v
+
     def new_object(self, cls, symbolic=False, fields=None):
         cell = Cell(cls=cls, fields=dict(fields or {}))
         ref = VRef(self.path.alloc(cell), cls)
@@ -135,6 +156,15 @@ class CallMixin:
 
     def fresh_value(self, kind: str, name: str) -> V:
         """Fresh symbolic value; containers get their own heap cell; obj:... makes objects."""
+        self.path.materializing += 1
+        try:
+            return self._fresh_value(kind, name)
+        finally:
+            self.path.materializing -= 1
+            if self.path.materializing == 0:
+                self.path.end_materialize()
+
+    def _fresh_value(self, kind: str, name: str) -> V:
         kind = kind.strip()
         if kind.startswith("obj:"):
             cn = kind[4:]
@@ -201,6 +231,10 @@ class CallMixin:
             if name == "errno":
                 return cell.fields.get("errno", VInt(self.path.const("errno", INT)))
             raise Unsupported(f"attribute {name!r} of external object of class {cls}")
+        if isinstance(obj, VStruct):
+            if name in obj.fields:
+                return obj.fields[name]
+            return self.class_getattr(obj.cls, name, obj)
         if isinstance(obj, VStr):
             return VBound(obj, VNative(None, "str." + name))
         if isinstance(obj, (VTuple, VList, VMap, VSet, VConstDict)):
@@ -276,7 +310,7 @@ class CallMixin:
                 r = self.registry.ext_method(self, b, name, inst)
                 if r is not None:
                     return r
-        if inst is not None and inst.addr in self.symbolic_objs:
+        if inst is not None and isinstance(inst, VRef) and inst.addr in self.symbolic_objs:
             raise Unsupported(f"field {name!r} of symbolic {cls.qualname} is not declared in the typing sidecar")
         self.raise_builtin("AttributeError")
 
@@ -598,7 +632,7 @@ class CallMixin:
             if y.items is not None and fr.yield_kind() is not None:
                 tmpl = vals.fresh("list[" + fr.yield_kind() + "]", "tmpl")
                 if y.items:
-                    y = vals.coerce(y, tmpl)
+                    y = vals.coerce(VList(items=[self.dataify(x) for x in y.items]), tmpl)
                 else:
                     y = VList(z3.IntVal(0), vals.lift_const(vals.dummy_like(vals.sel(tmpl.elem, z3.IntVal(0))), INT))
             values["_yielded"] = y
